@@ -12,7 +12,7 @@ open Wire
 let opt_n_of = function A "none" -> None | x -> Some (n_of_int (int_atom x))
 let opt_pyval_of = function A "none" -> None | x -> Some (pyval_of_sexp x)
 
-let coord_of n p r = { c_node = n_of_int (int_atom n); c_parent = opt_n_of p; c_ref = opt_pyval_of r }
+let coord_of n p r = { mc_node = n_of_int (int_atom n); mc_parent = opt_n_of p; mc_ref = opt_pyval_of r }
 
 let rule_of = function
   | L [n; p; r; v] -> { r_at = coord_of n p r; r_val = str_atom v }
